@@ -161,14 +161,23 @@ def check(run, driver):
             data = rng.standard_normal((T, n)) * 0.3
             for t in range(1, T):
                 data[t, 1] += 0.95 * data[t - 1, 0]
+        if info != "poisson" and len(hoeff_plan) % 3 == 1:       # "any values": heavy tails with a few far outliers (Student t, 2 degrees of freedom)
+            data = rng.standard_t(2, size=(T, n)) * 0.3
+            for t in range(1, T):
+                data[t, 1] += 0.95 * data[t - 1, 0]
         k = int(rng.integers(2, 5))
         metric = ["euclidean", "minkowski", "cityblock", "chebyshev"][len(hoeff_plan) % 4] if info in ("knn", "geometric_knn") else "euclidean"
         bw = ["silverman", "scott", 0.6][len(hoeff_plan) % 3] if info == "kde" else "silverman"
         hoeff_plan.append(info)
         kw = dict(method=method, information=info, max_lag=L, alpha_forward=0.1, alpha_backward=0.1, n_shuffles=nsh, k_means=k, metric=metric, bandwidth=bw)
-        with quiet():
-            G = discover_network(data.copy(), **kw)
         names = [f"X{i}" for i in range(n)]
+        arg = data.copy()
+        if len(hoeff_plan) % 2 == 0:       # labelled frame whose labels are in no particular order: u and v denote the series actually measured
+            import pandas as pd
+            names = [["temp", "load", "flow", "aux"], [30, 10, 20, 0], [("s", 2), ("a", 9), ("m", 0), ("b", 1)]][(len(hoeff_plan) // 2) % 3][:n]
+            arg = pd.DataFrame(data.copy(), columns=pd.Index(names, tupleize_cols=False))
+        with quiet():
+            G = discover_network(arg, **kw)
         pos = {nm: i for i, nm in enumerate(names)}
         edges = DC.graph_edges(G)
         case = {"data_seed": run.seed, "n": n, "T": T, **kw, "data": data}
